@@ -136,7 +136,24 @@ pub fn gen_scale(rng: &mut Rng) -> (u64, u64) {
 }
 
 /// data type for a "real valued" record (coordinates, intensity, colour, time stamp)
+/// optional float limits at the edges of the type (and beyond: infinities, NaN, signed zero)
+fn edge_f64(rng: &mut Rng) -> Option<u64> {
+    if rng.chance(1, 5) {
+        return None;
+    }
+    Some(rng.pick(&[f64::MIN, f64::MAX, f64::INFINITY, f64::NEG_INFINITY, 0.0, -0.0, f64::MIN_POSITIVE, 5e-324, -1.5e300, 1.5e300, f64::NAN, 1.0]).to_bits())
+}
+fn edge_f32(rng: &mut Rng) -> Option<u32> {
+    if rng.chance(1, 5) {
+        return None;
+    }
+    Some(rng.pick(&[f32::MIN, f32::MAX, f32::INFINITY, f32::NEG_INFINITY, 0.0, -0.0, f32::MIN_POSITIVE, 1e-45, -3e38, 3e38, f32::NAN, 1.0]).to_bits())
+}
+
 pub fn gen_real_dt(rng: &mut Rng, allow_int: bool) -> DT {
+    if rng.chance(1, 10) {
+        return if rng.chance(1, 2) { DT::F64(edge_f64(rng), edge_f64(rng)) } else { DT::F32(edge_f32(rng), edge_f32(rng)) };
+    }
     match rng.below(if allow_int { 6 } else { 4 }) {
         0 => DT::F32(None, None),
         1 => {
